@@ -714,4 +714,91 @@ theorem updLoop_inv {strict empty : Bool} {b : Heap} {acc0 : Acc} (cs : List (La
       have := ih hl (updStep_inv hs inv)
       simpa using this
 
+
+theorem assoc_filter_mem {β} (xs : List (Label × β)) (ls : List Label) (l : Label) (hl : l ∈ ls) :
+    assoc (xs.filter (fun e => decide (e.1 ∈ ls))) l = assoc xs l := by
+  induction xs with
+  | nil => simp [assoc]
+  | cons kv rest ih =>
+    obtain ⟨k, v⟩ := kv
+    by_cases hk : k = l
+    · subst hk; simp [List.filter, hl, assoc]
+    · by_cases hm : k ∈ ls
+      · simp [List.filter, hm, assoc, hk, ih]
+      · simp [List.filter, hm, assoc, hk, ih]
+
+theorem assoc_ordered {β} (f : Label → Option β) (ls : List Label) (x : Label) :
+    assoc (ls.filterMap (fun l => (f l).map (fun r => (l, r)))) x = if x ∈ ls then f x else none := by
+  induction ls with
+  | nil => simp [assoc]
+  | cons l rest ih =>
+    cases hf : f l with
+    | none =>
+      simp only [List.filterMap_cons, hf, Option.map_none]
+      rw [ih]
+      by_cases hx : l = x
+      · subst hx; simp [hf]
+      · have : ¬ x = l := fun e => hx e.symm
+        simp [this]
+    | some r =>
+      simp only [List.filterMap_cons, hf, Option.map_some]
+      by_cases hx : l = x
+      · subst hx; simp [assoc, hf]
+      · have : ¬ x = l := fun e => hx e.symm
+        simp [assoc, hx, ih, this]
+
+theorem mem_ordered {β} (f : Label → Option β) (ls : List Label) (l : Label) (r : β)
+    (h : (l, r) ∈ ls.filterMap (fun l => (f l).map (fun r => (l, r)))) : f l = some r := by
+  simp only [List.mem_filterMap] at h
+  obtain ⟨a, _, ha⟩ := h
+  cases hf : f a with
+  | none => simp [hf] at ha
+  | some v =>
+    simp [hf] at ha
+    obtain ⟨rfl, rfl⟩ := ha
+    exact hf
+
+/-- `_check_dataframe`: nothing happens when the remembered frame state is current; otherwise
+    `_update_columns` runs and the register is re-ordered to the frame's column order -/
+theorem checkDataframe_ok {h : Heap} {i : Nat} {fr : Frame} {h' : Heap} (hc : checkDataframe h i fr = .ok h') :
+    ∃ inf, h.infos.get i = some inf ∧
+      ((inf.last = some fr.state ∧ h' = h) ∨
+       (inf.last ≠ some fr.state ∧ hasDup fr.labels = false ∧ ∃ es tm hU acc,
+          h.dicts.get inf.cols = some es ∧ h.tmetas.get inf.tmeta = some tm ∧
+          updLoop tm.strict fr.empty (h, es.filter (fun e => decide (e.1 ∈ fr.labels))) fr.cols = .ok (hU, acc) ∧
+          h' = { hU with
+                 dicts := hU.dicts.write inf.cols (fr.labels.filterMap (fun l => (assoc acc l).map (fun r => (l, r)))),
+                 infos := hU.infos.write i ⟨inf.tmeta, inf.cols, some fr.state⟩ })) := by
+  unfold checkDataframe at hc
+  unfold getInfo at hc
+  cases hi : h.infos.get i with
+  | none => simp [hi] at hc
+  | some inf =>
+    refine ⟨inf, rfl, ?_⟩
+    simp only [hi] at hc
+    by_cases hl : inf.last = some fr.state
+    · simp [hl] at hc; exact Or.inl ⟨hl, hc.symm⟩
+    · simp only [hl, if_false] at hc
+      right
+      unfold updateColumns at hc
+      by_cases hd : hasDup fr.labels = true
+      · simp [hd] at hc
+      · have hd' : hasDup fr.labels = false := by simpa using hd
+        simp only [hd', Bool.false_eq_true, if_false] at hc
+        unfold getDict getTMeta at hc
+        cases hes : h.dicts.get inf.cols with
+        | none => simp [hes] at hc
+        | some es =>
+          simp only [hes] at hc
+          cases htm : h.tmetas.get inf.tmeta with
+          | none => simp [htm] at hc
+          | some tm =>
+            simp only [htm] at hc
+            cases hul : updLoop tm.strict fr.empty (h, es.filter (fun e => decide (e.1 ∈ fr.labels))) fr.cols with
+            | error e => simp [hul] at hc
+            | ok st =>
+              obtain ⟨hU, acc⟩ := st
+              simp [hul] at hc
+              exact ⟨hl, hd', es, tm, hU, acc, rfl, rfl, hul, hc.symm⟩
+
 end Pdt.C05
